@@ -18,6 +18,11 @@ def run(seed):
     case = irgen.Case(rnd, with_aux=False, with_cfi=False, max_mods=1)
     B = irgen.build(case)
     originals = {id(b) for b in B.m.byte_blocks}
+    if case.nfun == 0 and rnd.random() < 0.6:
+        # a module that has no function tables at all (a stripped object, an IR built by hand): they come into being with the
+        # first inserted function
+        for k in ("functionBlocks", "functionEntries", "functionNames"):
+            B.m.aux_data.pop(k, None)
     ctx = gtirb_rewriting.RewritingContext(B.m, B.fobjs)
     code_idx = [i for i, x in enumerate(case.blocks) if x["kind"] == "c"]
     inserted = []
